@@ -70,14 +70,14 @@ theorem pe_rhs_zero (net : PE.Net ℝ) (np : NetProblem ℝ) (u : Unknowns ℝ)
 theorem exact_network_solution_zero (net : PE.Net ℝ) (np : NetProblem ℝ) (u : Unknowns ℝ)
     (hpe : @projectEquations ℝ (trigOfField realTrig) net = .ok (np, u))
     (hex : ∀ ob ∈ revisedObs u.net, ExactObs (sigmaOf u.net) ob)
-    (hna : ∀ ob ∈ revisedObs u.net, NoAlias ob) (hm0 : np.m0 ≠ 0)
+    (hm0 : np.m0 ≠ 0)
     (Pc : Matrix (Fin (toProblem np).m) (Fin (toProblem np).m) ℝ) (hPc : Sigma np * Pc = 1)
     (hreg : Env.RegListOK (toProblem np)) {τ : ℝ} (hτ : GapThresholds τ)
     (hgap : RankGap (toProblem np).A ((np.m0 * np.m0) • Pc) (toProblem np).S τ)
     (alg : Alg) (halg : alg ≠ .svd) (a : NetAnswer ℝ) (hs : netSolve alg np = .ok a) :
     toVec (toProblem np).n a.x = 0 ∧ toVec (toProblem np).m a.r = 0 ∧ a.pvv = 0 := by
   have hdim := C01_pe_dimsN realTrig net np u hpe
-  have hrows := @C01_pe_rowsOK ℝ (trigOfField realTrig) net np u hpe hna
+  have hrows := @C01_pe_rowsOK ℝ (trigOfField realTrig) net np u hpe
   have hls := C01_net_of_gap np hdim hrows hm0 Pc hPc hreg hτ hgap alg halg a hs
   -- b = 0
   have hb : (toProblem np).b = 0 := by
